@@ -109,3 +109,191 @@ Example C05_nullable_nonvacuous :
     wt xs (KMessage (q "Nul")) (FM [(s "id", vstr "x")]) = true /\
     encode Ex xs (q "Nul") [(s "id", vstr "x")] = ROk (JObj [(s "id", JStr (s "x")); (s "nick", JNull)]).
 Proof. exact nullable_nonvacuous. Qed.
+
+(* ---- appended by P1_int64 ---- *)
+
+(* C05_conforms for the int64 NUMBER codec in general: a top-level message whose only annotations are
+   int64_encoding options (NUMBER not on a map), with un-annotated children, is sent exactly as the
+   documented mapping says, for all well-typed values *)
+From SebufProofs Require Import Int64Facts Int64Conforms.
+Theorem C05_conforms_int64_partial : forall E sc tn md m,
+  str_eqb tn ts_name = false -> is_wkt_other tn = false ->
+  find_message (all_messages sc) tn = Some md -> owner_of sc md = Own FtInt64 ->
+  buildable sc FtInt64 md = true ->
+  nodup_str (map jn (m_fields md)) = true ->
+  i64plain_msg md = true ->
+  wt sc (KMessage tn) (FM m) = true ->
+  forallb (fun e => match find_field (m_fields md) (fst e) with
+                    | Some f => plain_in sc (f_kind f) (snd e)
+                    | None => false end) m = true ->
+  encode E sc tn m = to_json E sc tn m.
+Proof. exact conforms_int64. Qed.
+Print Assumptions C05_conforms_int64_partial.
+
+Example C05_int64_nonvacuous :
+  exists md,
+    find_message (all_messages i64s) (q "Wide") = Some md /\ owner_of i64s md = Own FtInt64 /\
+    buildable i64s FtInt64 md = true /\ nodup_str (map jn (m_fields md)) = true /\ i64plain_msg md = true /\
+    wt i64s (KMessage (q "Wide")) (FM wide_val) = true /\
+    forallb (fun e => match find_field (m_fields md) (fst e) with
+                      | Some f => plain_in i64s (f_kind f) (snd e)
+                      | None => false end) wide_val = true /\
+    encode Ex i64s (q "Wide") wide_val = ROk wide_json /\ to_json Ex i64s (q "Wide") wide_val = ROk wide_json.
+Proof. exact conforms_int64_nonvacuous. Qed.
+
+(* each added hypothesis is needed *)
+Example C05_int64_needs_wt :
+  let m := [(s "big", vint 0)] in
+  exists md,
+    find_message (all_messages xs) (q "Nums") = Some md /\ owner_of xs md = Own FtInt64 /\
+    buildable xs FtInt64 md = true /\ nodup_str (map jn (m_fields md)) = true /\ i64plain_msg md = true /\
+    forallb (fun e => match find_field (m_fields md) (fst e) with
+                      | Some f => plain_in xs (f_kind f) (snd e)
+                      | None => false end) m = true /\
+    wt xs (KMessage (q "Nums")) (FM m) = false /\
+    encode Ex xs (q "Nums") m = ROk (JObj []) /\ to_json Ex xs (q "Nums") m = ROk (JObj [(s "big", JNum 0)]).
+Proof. exact conforms_int64_needs_wt. Qed.
+Example C05_int64_needs_nonmap :
+  let m := [(s "by_k", FMap [(VStr (s "k"), vint 5)])] in
+  exists md,
+    find_message (all_messages xs) (q "NumMap") = Some md /\ owner_of xs md = Own FtInt64 /\
+    buildable xs FtInt64 md = true /\ nodup_str (map jn (m_fields md)) = true /\
+    wt xs (KMessage (q "NumMap")) (FM m) = true /\
+    forallb (fun e => match find_field (m_fields md) (fst e) with
+                      | Some f => plain_in xs (f_kind f) (snd e)
+                      | None => false end) m = true /\
+    i64plain_msg md = false /\
+    encode Ex xs (q "NumMap") m = ROk (JObj [(s "byK", JObj [(s "k", JStr (s "5"))])]) /\
+    to_json Ex xs (q "NumMap") m = ROk (JObj [(s "byK", JObj [(s "k", JNum 5)])]).
+Proof. exact conforms_int64_needs_nonmap. Qed.
+Example C05_int64_needs_buildable :
+  let m := [(s "o", vint 5)] in
+  exists md w,
+    find_message (all_messages i64s) (q "Opt") = Some md /\ owner_of i64s md = Own FtInt64 /\
+    nodup_str (map jn (m_fields md)) = true /\ i64plain_msg md = true /\
+    wt i64s (KMessage (q "Opt")) (FM m) = true /\
+    buildable i64s FtInt64 md = false /\
+    encode Ex i64s (q "Opt") m = RUnm w /\ to_json Ex i64s (q "Opt") m = ROk (JObj [(s "o", JNum 5)]).
+Proof. exact conforms_int64_needs_buildable. Qed.
+
+(* ---- appended by P2_bytes ---- *)
+
+(* ---- C05_conforms for the bytes_encoding codec in general: a top-level message whose only annotations
+   are bytes_encoding on singular / optional bytes fields, with un-annotated children, is sent exactly
+   as the documented mapping says (proofs/BytesConforms.v) ---- *)
+From SebufProofs Require Import BytesFacts BytesConforms.
+Theorem C05_conforms_bytes_partial : forall E sc tn md m,
+  str_eqb tn ts_name = false -> is_wkt_other tn = false ->
+  find_message (all_messages sc) tn = Some md -> owner_of sc md = Own FtBytes ->
+  buildable sc FtBytes md = true ->
+  nodup_str (map jn (m_fields md)) = true ->
+  bytesplain_msg md = true ->
+  nodup_str (map fst m) = true ->
+  forallb (bytes_value_ok sc md) m = true ->
+  encode E sc tn m = to_json E sc tn m.
+Proof. exact conforms_bytes. Qed.
+Print Assumptions C05_conforms_bytes_partial.
+
+Example C05_bytes_nonvacuous :
+  exists md,
+    str_eqb (q "B") ts_name = false /\ is_wkt_other (q "B") = false /\
+    find_message (all_messages bxs) (q "B") = Some md /\ owner_of bxs md = Own FtBytes /\
+    buildable bxs FtBytes md = true /\ nodup_str (map jn (m_fields md)) = true /\ bytesplain_msg md = true /\
+    wt bxs (KMessage (q "B")) (FM bval) = true /\
+    nodup_str (map fst bval) = true /\ forallb (bytes_value_ok bxs md) bval = true /\
+    encode Ex bxs (q "B") bval = ROk bjson /\ to_json Ex bxs (q "B") bval = ROk bjson /\
+    decode Ex bxs (q "B") bjson = ROk bval.
+Proof. exact bytes_nonvacuous. Qed.
+Print Assumptions C05_bytes_nonvacuous.
+(* the side conditions cannot be dropped *)
+Example C05_conforms_bytes_needs_buildable :
+  exists md,
+    find_message (all_messages bxs) (q "BRep") = Some md /\ owner_of bxs md = Own FtBytes /\
+    buildable bxs FtBytes md = false /\
+    nodup_str (map jn (m_fields md)) = true /\ bytesplain_msg md = true /\
+    nodup_str (map fst (@nil (str * fval))) = true /\ forallb (bytes_value_ok bxs md) [] = true /\
+    encode Ex bxs (q "BRep") [] <> to_json Ex bxs (q "BRep") [] /\
+    (let m := [(s "hs", FL [FS (VBytes [ch 1])])] in
+     wt bxs (KMessage (q "BRep")) (FM m) = true /\
+     to_json Ex bxs (q "BRep") m = ROk (JObj [(s "hs", JArr [JStr (s "01")])]) /\
+     exists w, encode Ex bxs (q "BRep") m = RUnm w).
+Proof. exact conforms_bytes_needs_buildable. Qed.
+Print Assumptions C05_conforms_bytes_needs_buildable.
+Example C05_conforms_bytes_needs_nonmap :
+  let m := [(s "h", FS (VBytes [ch 1])); (s "by_k", FMap [(VStr (s "k"), FS (VBytes [ch 1]))])] in
+  exists md,
+    find_message (all_messages bxs) (q "BMap") = Some md /\ owner_of bxs md = Own FtBytes /\
+    buildable bxs FtBytes md = true /\ nodup_str (map jn (m_fields md)) = true /\
+    bytesplain_msg md = false /\
+    wt bxs (KMessage (q "BMap")) (FM m) = true /\ nodup_str (map fst m) = true /\
+    encode Ex bxs (q "BMap") m = ROk (JObj [(s "h", JStr (s "01")); (s "byK", JObj [(s "k", JStr (s "AQ=="))])]) /\
+    to_json Ex bxs (q "BMap") m = ROk (JObj [(s "h", JStr (s "01")); (s "byK", JObj [(s "k", JStr (s "01"))])]).
+Proof. exact conforms_bytes_needs_nonmap. Qed.
+Print Assumptions C05_conforms_bytes_needs_nonmap.
+Example C05_conforms_bytes_needs_distinct_names :
+  let m := [(s "h", FS (VBytes [ch 1])); (s "h", FS (VBytes [ch 2]))] in
+  exists md,
+    find_message (all_messages xs) (q "Blob") = Some md /\ owner_of xs md = Own FtBytes /\
+    buildable xs FtBytes md = true /\ nodup_str (map jn (m_fields md)) = true /\ bytesplain_msg md = true /\
+    nodup_str (map fst m) = false /\ forallb (bytes_value_ok xs md) m = true /\
+    encode Ex xs (q "Blob") m <> to_json Ex xs (q "Blob") m.
+Proof. exact conforms_bytes_needs_distinct_names. Qed.
+Print Assumptions C05_conforms_bytes_needs_distinct_names.
+Example C05_conforms_bytes_needs_bytes_value :
+  let m := [(s "h", FL [FS (VBytes [ch 1])])] in
+  exists md,
+    find_message (all_messages xs) (q "Blob") = Some md /\ owner_of xs md = Own FtBytes /\
+    buildable xs FtBytes md = true /\ nodup_str (map jn (m_fields md)) = true /\ bytesplain_msg md = true /\
+    nodup_str (map fst m) = true /\ forallb (bytes_value_ok xs md) m = false /\
+    encode Ex xs (q "Blob") m <> to_json Ex xs (q "Blob") m.
+Proof. exact conforms_bytes_needs_bytes_value. Qed.
+Print Assumptions C05_conforms_bytes_needs_bytes_value.
+
+(* ---- appended by P3_ts ---- *)
+
+(* C05_conforms for the timestamp_format codec in general: a top-level message whose codec is the
+   timestamp one, every other field un-annotated with un-annotated children, is sent exactly as the
+   documented mapping says (every value that names each field at most once; errors included) *)
+From SebufProofs Require Import TimestampFacts TimestampConforms.
+Theorem C05_conforms_ts_partial : forall E sc tn md m,
+  str_eqb tn ts_name = false -> is_wkt_other tn = false ->
+  find_message (all_messages sc) tn = Some md -> owner_of sc md = Own FtTs ->
+  buildable sc FtTs md = true ->
+  nodup_str (map jn (m_fields md)) = true ->
+  forallb tsplain_field (m_fields md) = true ->
+  nodup_str (map fst m) = true ->
+  forallb (ts_entry_ok sc md) m = true ->
+  encode E sc tn m = to_json E sc tn m.
+Proof. exact conforms_ts. Qed.
+Print Assumptions C05_conforms_ts_partial.
+
+(* each added side condition is needed *)
+Example C05_conforms_ts_needs_nodup_names :
+  let m := [(s "at_secs", tsv 5 0); (s "at_secs", tsv 7 0)] in
+  nodup_str (map fst m) = false /\
+  encode Ex tss (q "Stamps") m = ROk (JObj [(s "atSecs", JNum 5); (s "atSecs", JNum 5)]) /\
+  to_json Ex tss (q "Stamps") m = ROk (JObj [(s "atSecs", JNum 5); (s "atSecs", JNum 7)]).
+Proof. exact conforms_ts_needs_nodup_names. Qed.
+Print Assumptions C05_conforms_ts_needs_nodup_names.
+Example C05_conforms_ts_needs_message_shape :
+  let m := [(s "at_secs", FL [tsv 5 0])] in
+  encode Ex tss (q "Stamps") m = ROk (JObj [(s "atSecs", JArr [JStr (s "1970-01-01T00:00:05Z")])]) /\
+  to_json Ex tss (q "Stamps") m = ROk (JObj [(s "atSecs", JArr [JNum 5])]).
+Proof. exact conforms_ts_needs_message_shape. Qed.
+Print Assumptions C05_conforms_ts_needs_message_shape.
+Example C05_conforms_ts_needs_tsplain :
+  let m := [(s "at", tsv 5 0); (s "by_k", FMap [(VStr (s "k"), tsv 7 0)])] in
+  (exists md, find_message (all_messages tss) (q "StampMap") = Some md /\ owner_of tss md = Own FtTs /\
+              buildable tss FtTs md = true /\ forallb tsplain_field (m_fields md) = false) /\
+  encode Ex tss (q "StampMap") m = ROk (JObj [(s "at", JNum 5); (s "byK", JObj [(s "k", JStr (s "1970-01-01T00:00:07Z"))])]) /\
+  to_json Ex tss (q "StampMap") m = ROk (JObj [(s "at", JNum 5); (s "byK", JObj [(s "k", JNum 7)])]).
+Proof. exact conforms_ts_needs_tsplain. Qed.
+Print Assumptions C05_conforms_ts_needs_tsplain.
+Example C05_conforms_ts_needs_buildable :
+  let m := [(s "ats", FL [tsv 5 0])] in
+  (exists md, find_message (all_messages tss) (q "StampList") = Some md /\ owner_of tss md = Own FtTs /\
+              buildable tss FtTs md = false) /\
+  (exists w, encode Ex tss (q "StampList") m = RUnm w) /\
+  to_json Ex tss (q "StampList") m = ROk (JObj [(s "ats", JArr [JNum 5])]).
+Proof. exact conforms_ts_needs_buildable. Qed.
+Print Assumptions C05_conforms_ts_needs_buildable.
